@@ -16,6 +16,7 @@ import (
 	"fmt"
 	"go/constant"
 	"go/types"
+	"os"
 	"regexp"
 	"sort"
 	"strings"
@@ -903,6 +904,10 @@ func registerDBModels() {
 		// linkage inside one answer
 		x.assume(st, Implies(Eq(e, Term{"inil", SIface}), T(SBool, "(forall ((a (_ BitVec 64))) (! (=> (and (bvult %s %s) (bvugt %s #x0000000000000000) (= (slen %s) #x0000000000000020)) (= (hashOf %s %s) (hashOf %s %s))) :pattern (%s)))",
 			rel, limit.S, rel, x.blockParent(blk("a"), bt).S, x.heap(st, SBV8).S, x.blockParent(blk("a"), bt).S, x.heap(st, SBV8).S, x.blockHash(blk("(bvsub a #x0000000000000001)"), bt).S, blk("a").S)))
+		if os.Getenv("VC_TEST_GETHOLE") != "" {
+			// self-test of the vacuity guard: re-create the contradiction of DESIGN I.6
+			x.assume(st, Implies(Eq(e, Term{"inil", SIface}), Select(allocBefore, sBase(b))))
+		}
 		st.alloc = x.sc.Define("alloc", Store(st.alloc, sBase(b), TTrue))
 		x.assume(st, x.typeInv(b, tup.At(0).Type(), st, 2))
 		return res
